@@ -6,8 +6,9 @@ import Mathlib.Tactic.SplitIfs
 import DFV.Model.C05
 import DFV.Props.C04
 /-! helper lemmas for C05 (constructor path, component access, stacking, sums; spec-level `D`) -/
+set_option linter.unusedSimpArgs false
 namespace DFV.C05
-open DFV
+open DFV DFV.C04
 
 theorem cellv_length (f : Fld) (i : List Nat) : (cellv f i).length = f.nvdim := by simp [cellv]
 
@@ -733,5 +734,379 @@ theorem rDimLast_of_lookup (f : Fld) (l d : String)
       have hq' : q ∈ f.vmap := by simpa using hq
       have : q.2 = d := by simpa using hqd
       exact hinj q hq' p hm (by rw [this, h])
+
+/-! ## setters, index lemmas, stencils on fully valid lines, sums -/
+
+theorem lookup_cons (k d : String) (rest : List (String × String)) (l : String) :
+    Fld.lookup ((k, d) :: rest) l = if k == l then some d else Fld.lookup rest l := by
+  unfold Fld.lookup
+  simp only [List.find?]
+  cases h : k == l <;> simp
+
+theorem transportMap_lookup (mp : List (String × String)) : ∀ (ns os : List String) (r : List (String × String)),
+    hasDup ns = false → ns.length ≤ os.length → transportMap mp ns os = .ok r →
+    ∀ k, k < ns.length → Fld.lookup r (ns.getD k "") = Fld.lookup mp (os.getD k "") := by
+  intro ns
+  induction ns with
+  | nil => intro os r _ _ _ k hk; simp at hk
+  | cons n ns ih =>
+    intro os r hd hl h k hk
+    cases os with
+    | nil => simp at hl
+    | cons o os =>
+      simp only [transportMap] at h
+      split at h
+      · cases h
+      · rename_i d hd'
+        split at h
+        · cases h
+        · rename_i rest hrest
+          injection h with h; subst h
+          simp only [hasDup, Bool.or_eq_false_iff] at hd
+          rw [lookup_cons]
+          cases k with
+          | zero => simp [hd']
+          | succ k =>
+            simp only [List.getD_cons_succ]
+            have hne : (n == ns.getD k "") = false := by
+              have hk' : k < ns.length := by simpa using hk
+              have hm : ns.getD k "" ∈ ns := by
+                rw [List.getD_eq_getElem?_getD, List.getElem?_eq_getElem hk']; simp
+              cases hq : n == ns.getD k "" with
+              | false => rfl
+              | true =>
+                have : n = ns.getD k "" := by simpa using hq
+                rw [← this] at hm
+                have hc : ns.contains n = true := by simpa using hm
+                rw [hc] at hd; exact absurd hd.1 (by simp)
+            rw [hne]
+            simp only [Bool.false_eq_true, if_false]
+            exact ih os rest hd.2 (by simpa using hl) hrest k (by simpa using hk)
+
+theorem vdimsSet_some {n : Nat} {new : List String} {r : Option (List String)} (hne : new ≠ [])
+    (h : vdimsSet n (some new) = .ok r) : r = some new ∧ new.length = n ∧ hasDup new = false := by
+  unfold vdimsSet at h
+  simp only [] at h
+  have : ¬ new.length = 0 := by simpa using hne
+  simp only [this, if_false] at h
+  split at h
+  · cases h
+  · split at h
+    · cases h
+    · rename_i h1 h2
+      injection h with h
+      exact ⟨h.symm, by omega, by simpa using h2⟩
+
+theorem getD_setAt_same {α} (l : List α) (k : Nat) (v d : α) (hk : k < l.length) : (setAt l k v).getD k d = v := by
+  induction l generalizing k with
+  | nil => simp at hk
+  | cons x xs ih =>
+    cases k with
+    | zero => simp [setAt]
+    | succ k => simp only [setAt, List.getD_cons_succ]; exact ih k (by simpa using hk)
+
+theorem getD_setAt_ne {α} (l : List α) (k a : Nat) (v d : α) (hne : a ≠ k) : (setAt l k v).getD a d = l.getD a d := by
+  induction l generalizing k a with
+  | nil => simp [setAt]
+  | cons x xs ih =>
+    cases k with
+    | zero =>
+      cases a with
+      | zero => exact absurd rfl hne
+      | succ a => simp [setAt]
+    | succ k =>
+      cases a with
+      | zero => simp [setAt]
+      | succ a => simp only [setAt, List.getD_cons_succ]; exact ih k a (by omega)
+
+theorem setAt_length {α} (l : List α) (k : Nat) (v : α) : (setAt l k v).length = l.length := by
+  induction l generalizing k with
+  | nil => simp [setAt]
+  | cons x xs ih => cases k <;> simp [setAt, ih]
+
+theorem setAt_comm {α} (l : List α) (a b : Nat) (u v : α) (hne : a ≠ b) :
+    setAt (setAt l a u) b v = setAt (setAt l b v) a u := by
+  induction l generalizing a b with
+  | nil => simp [setAt]
+  | cons x xs ih =>
+    cases a with
+    | zero =>
+      cases b with
+      | zero => exact absurd rfl hne
+      | succ b => simp [setAt]
+    | succ a =>
+      cases b with
+      | zero => simp [setAt]
+      | succ b => simp only [setAt]; rw [ih a b (by omega)]
+
+theorem d1At_congr (h : Rat) (L : Nat) (f g : Nat → Rat) (i : Nat) (hfg : ∀ k, k < L → f k = g k) (hi : i < L) :
+    d1At h L f i = d1At h L g i := by
+  unfold d1At
+  by_cases h1 : L < 2
+  · simp [h1]
+  · by_cases h2 : L = 2
+    · simp only [h1, h2, if_false, if_true]
+      rw [hfg 1 (by omega), hfg 0 (by omega)]
+    · simp only [h1, h2, if_false]
+      by_cases h3 : i = 0
+      · simp only [h3, if_true]
+        rw [hfg 0 (by omega), hfg 1 (by omega), hfg 2 (by omega)]
+      · by_cases h4 : i = L - 1
+        · simp only [h3, h4, if_false, if_true]
+          have : ¬ (L - 1 = 0) := by omega
+          simp only [this, if_false]
+          rw [hfg (L - 1) (by omega), hfg (L - 2) (by omega), hfg (L - 3) (by omega)]
+        · simp only [h3, h4, if_false]
+          rw [hfg (i + 1) (by omega), hfg (i - 1) (by omega)]
+
+theorem d2At_congr (h : Rat) (L : Nat) (f g : Nat → Rat) (i : Nat) (hfg : ∀ k, k < L → f k = g k) (hi : i < L) :
+    d2At h L f i = d2At h L g i := by
+  unfold d2At
+  by_cases h1 : L < 3
+  · simp [h1]
+  · by_cases h2 : L = 3
+    · simp only [h1, h2, if_false, if_true]
+      rw [hfg 0 (by omega), hfg 1 (by omega), hfg 2 (by omega)]
+    · simp only [h1, h2, if_false]
+      by_cases h3 : i = 0
+      · simp only [h3, if_true]
+        rw [hfg 0 (by omega), hfg 1 (by omega), hfg 2 (by omega), hfg 3 (by omega)]
+      · by_cases h4 : i = L - 1
+        · simp only [h3, h4, if_false, if_true]
+          have : ¬ (L - 1 = 0) := by omega
+          simp only [this, if_false]
+          rw [hfg (L - 1) (by omega), hfg (L - 2) (by omega), hfg (L - 3) (by omega), hfg (L - 4) (by omega)]
+        · simp only [h3, h4, if_false]
+          rw [hfg (i + 1) (by omega), hfg i (by omega), hfg (i - 1) (by omega)]
+
+theorem dAt_congr (o : Nat) (h : Rat) (L : Nat) (f g : Nat → Rat) (i : Nat) (hfg : ∀ k, k < L → f k = g k) (hi : i < L) :
+    dAt o h L f i = dAt o h L g i := by
+  unfold dAt
+  split
+  · exact d1At_congr h L f g i hfg hi
+  · exact d2At_congr h L f g i hfg hi
+
+/-- fully valid line = the table of its values, each tagged valid -/
+theorem tab_all_valid (n : Nat) (g : Nat → Rat) (v : Nat → Bool) (hv : ∀ j, j < n → v j = true) :
+    (tab n fun j => (g j, v j)) = (tab n g).map (·, true) := by
+  unfold tab
+  rw [List.map_map]
+  apply List.map_congr_left
+  intro j hj
+  simp [hv j (List.mem_range.mp hj)]
+
+/-- open direction, every cell of the line valid: the derivative is the run stencil on the line -/
+theorem D_open_all_valid (f : Fld) (ax o c : Nat) (i : List Nat) (hper : periodic f ax = false)
+    (hv : ∀ j, j < f.mesh.nAt ax → f.valid.line ax i j = true) (hi : i.getD ax 0 < f.mesh.nAt ax) :
+    D f ax o c i = dAt o (f.mesh.cellAt ax) (f.mesh.nAt ax) (fun j => (f.data.line ax i j).getD c 0) (i.getD ax 0) := by
+  unfold D
+  rw [hper]
+  unfold diffLine'
+  simp only [Bool.false_eq_true, if_false, if_true]
+  rw [tab_all_valid _ (fun j => (f.data.line ax i j).getD c 0) _ hv, all_valid_one_run,
+    diffRun_getD _ _ _ _ (by simpa using hi)]
+  simp only [tab_length]
+  apply dAt_congr _ _ _ _ _ _ _ hi
+  intro k hk
+  rw [getD_tab _ _ _ _ hk]
+
+theorem coords_setAt (f : Fld) (i : List Nat) (ax j : Nat) (hax : ax < i.length) :
+    coords f (setAt i ax j) = upd (coords f i) ax (coords f i ax + ((j : Rat) - (i.getD ax 0 : Nat)) * f.mesh.cellAt ax) := by
+  funext a
+  unfold coords upd Mesh.centreAx
+  by_cases ha : a = ax
+  · subst ha
+    simp only [if_true]
+    rw [getD_setAt_same _ _ _ _ hax]
+    push_cast
+    ring
+  · simp only [ha, if_false]
+    rw [getD_setAt_ne _ _ _ _ _ ha]
+
+theorem sumTo_lin4 (n : Nat) (f1 f2 f3 f4 : Nat → Rat) (s t : Rat) :
+    sumTo n (fun a => f1 a + s * f2 a + s * f3 a + t * f4 a)
+      = sumTo n f1 + s * sumTo n f2 + s * sumTo n f3 + t * sumTo n f4 := by
+  induction n with
+  | zero => simp [sumTo]
+  | succ n ih => simp only [sumTo]; rw [ih]; ring
+
+theorem sumTo_add (n : Nat) (f g : Nat → Rat) : sumTo n (fun a => f a + g a) = sumTo n f + sumTo n g := by
+  induction n with
+  | zero => simp [sumTo]
+  | succ n ih => simp only [sumTo]; rw [ih]; ring
+
+theorem sumTo_zero (n : Nat) : sumTo n (fun _ => (0 : Rat)) = 0 := by
+  induction n with
+  | zero => rfl
+  | succ n ih => simp [sumTo, ih]
+
+theorem sumTo_mul_left (n : Nat) (k : Rat) (f : Nat → Rat) : sumTo n (fun a => k * f a) = k * sumTo n f := by
+  induction n with
+  | zero => simp [sumTo]
+  | succ n ih => simp only [sumTo]; rw [ih]; ring
+
+theorem sumTo_delta (n ax : Nat) (hax : ax < n) (f : Nat → Rat) :
+    sumTo n (fun a => (if a = ax then (1 : Rat) else 0) * f a) = f ax := by
+  induction n with
+  | zero => omega
+  | succ n ih =>
+    simp only [sumTo]
+    by_cases h : ax = n
+    · subst h
+      have : sumTo ax (fun a => (if a = ax then (1 : Rat) else 0) * f a) = 0 := by
+        have : ∀ m, m ≤ ax → sumTo m (fun a => (if a = ax then (1 : Rat) else 0) * f a) = 0 := by
+          intro m
+          induction m with
+          | zero => intro _; rfl
+          | succ m ihm =>
+            intro hm
+            simp only [sumTo]
+            rw [ihm (by omega)]
+            have : ¬ (m = ax) := by omega
+            simp [this]
+        exact this ax (Nat.le_refl _)
+      rw [this]; simp
+    · rw [ih (by omega)]
+      have : ¬ (n = ax) := by omega
+      simp [this]
+
+theorem upd_add (x : Nat → Rat) (ax : Nat) (s : Rat) :
+    upd x ax (x ax + s) = fun a => x a + s * (if a = ax then (1 : Rat) else 0) := by
+  funext a
+  unfold upd
+  by_cases h : a = ax
+  · subst h; simp
+  · simp [h]
+
+/-- every stencil is a fixed linear combination of at most four cells of the line -/
+theorem lineD_taps (p : Bool) (o : Nat) (h : Rat) (L i : Nat) :
+    ∃ (w0 w1 w2 w3 : Rat) (t0 t1 t2 t3 : Nat), ∀ g : Nat → Rat,
+      lineD p o h L g i = w0 * g t0 + w1 * g t1 + w2 * g t2 + w3 * g t3 := by
+  unfold lineD
+  cases p with
+  | true =>
+    simp only [if_true]
+    by_cases ho : o = 1
+    · simp only [ho, if_true]
+      exact ⟨1 / (2 * h), -1 / (2 * h), 0, 0, (i + 1) % L, (i + L - 1) % L, 0, 0, fun g => by ring⟩
+    · simp only [ho, if_false]
+      exact ⟨1 / (h * h), -2 / (h * h), 1 / (h * h), 0, (i + 1) % L, i % L, (i + L - 1) % L, 0, fun g => by ring⟩
+  | false =>
+    simp only [Bool.false_eq_true, if_false]
+    unfold dAt
+    by_cases ho : o = 1
+    · simp only [ho, if_true]
+      unfold d1At
+      by_cases h1 : L < 2
+      · simp only [h1, if_true]; exact ⟨0, 0, 0, 0, 0, 0, 0, 0, fun g => by ring⟩
+      · by_cases h2 : L = 2
+        · subst h2
+          simp only [show ¬ ((2 : Nat) < 2) by omega, if_false, if_true]
+          exact ⟨1 / h, -1 / h, 0, 0, 1, 0, 0, 0, fun g => by ring⟩
+        · by_cases h3 : i = 0
+          · simp only [h1, h2, h3, if_false, if_true]
+            exact ⟨-3 / (2 * h), 4 / (2 * h), -1 / (2 * h), 0, 0, 1, 2, 0, fun g => by ring⟩
+          · by_cases h4 : i = L - 1
+            · subst h4
+              simp only [h1, h2, h3, if_false, if_true]
+              exact ⟨3 / (2 * h), -4 / (2 * h), 1 / (2 * h), 0, L - 1, L - 2, L - 3, 0, fun g => by ring⟩
+            · simp only [h1, h2, h3, h4, if_false]
+              exact ⟨1 / (2 * h), -1 / (2 * h), 0, 0, i + 1, i - 1, 0, 0, fun g => by ring⟩
+    · simp only [ho, if_false]
+      unfold d2At
+      by_cases h1 : L < 3
+      · simp only [h1, if_true]; exact ⟨0, 0, 0, 0, 0, 0, 0, 0, fun g => by ring⟩
+      · by_cases h2 : L = 3
+        · subst h2
+          simp only [show ¬ ((3 : Nat) < 3) by omega, if_false, if_true]
+          exact ⟨1 / (h * h), -2 / (h * h), 1 / (h * h), 0, 0, 1, 2, 0, fun g => by ring⟩
+        · by_cases h3 : i = 0
+          · simp only [h1, h2, h3, if_false, if_true]
+            exact ⟨2 / (h * h), -5 / (h * h), 4 / (h * h), -1 / (h * h), 0, 1, 2, 3, fun g => by ring⟩
+          · by_cases h4 : i = L - 1
+            · subst h4
+              simp only [h1, h2, h3, if_false, if_true]
+              exact ⟨2 / (h * h), -5 / (h * h), 4 / (h * h), -1 / (h * h), L - 1, L - 2, L - 3, L - 4, fun g => by ring⟩
+            · simp only [h1, h2, h3, h4, if_false]
+              exact ⟨1 / (h * h), -2 / (h * h), 1 / (h * h), 0, i + 1, i, i - 1, 0, fun g => by ring⟩
+
+/-- stencils along two different axes commute (each acts on its own index) -/
+theorem lineD_comm (p1 p2 : Bool) (o1 o2 : Nat) (h1 h2 : Rat) (L M : Nat) (F : Nat → Nat → Rat) (i j : Nat) :
+    lineD p1 o1 h1 L (fun k => lineD p2 o2 h2 M (fun l => F k l) j) i
+      = lineD p2 o2 h2 M (fun l => lineD p1 o1 h1 L (fun k => F k l) i) j := by
+  obtain ⟨a0, a1, a2, a3, s0, s1, s2, s3, hA⟩ := lineD_taps p1 o1 h1 L i
+  obtain ⟨b0, b1, b2, b3, t0, t1, t2, t3, hB⟩ := lineD_taps p2 o2 h2 M j
+  simp only [hA, hB]
+  ring
+
+theorem lineD_sub (p : Bool) (o : Nat) (h : Rat) (L : Nat) (f g : Nat → Rat) (i : Nat) :
+    lineD p o h L (fun k => f k - g k) i = lineD p o h L f i - lineD p o h L g i := by
+  obtain ⟨a0, a1, a2, a3, s0, s1, s2, s3, hA⟩ := lineD_taps p o h L i
+  simp only [hA]
+  ring
+
+theorem lineD_congr (p : Bool) (o : Nat) (h : Rat) (L : Nat) (f g : Nat → Rat) (i : Nat) (hfg : ∀ k, f k = g k) :
+    lineD p o h L f i = lineD p o h L g i := by
+  have : f = g := funext hfg
+  rw [this]
+
+/-- fully valid line, open or periodic direction: the derivative is the line stencil -/
+theorem D_all_valid (f : Fld) (ax o c : Nat) (i : List Nat) (ho : o = 1 ∨ o = 2)
+    (hv : ∀ j, j < f.mesh.nAt ax → f.valid.line ax i j = true) (hi : i.getD ax 0 < f.mesh.nAt ax) :
+    D f ax o c i = lineD (periodic f ax) o (f.mesh.cellAt ax) (f.mesh.nAt ax)
+      (fun j => (f.data.line ax i j).getD c 0) (i.getD ax 0) := by
+  cases hp : periodic f ax with
+  | false =>
+    rw [D_open_all_valid f ax o c i hp hv hi]
+    unfold lineD; simp
+  | true =>
+    unfold D
+    rw [hp]
+    unfold diffLine' lineD
+    simp only [if_true]
+    rw [tab_all_valid _ (fun j => (f.data.line ax i j).getD c 0) _ hv]
+    have hlen : (tab (f.mesh.nAt ax) fun j => (f.data.line ax i j).getD c 0).length = f.mesh.nAt ax := by simp
+    have hrv : ∀ k, ringVal (tab (f.mesh.nAt ax) fun j => (f.data.line ax i j).getD c 0) k
+        = (f.data.line ax i (k % f.mesh.nAt ax)).getD c 0 := by
+      intro k
+      unfold ringVal
+      rw [hlen, getD_tab _ _ _ _ (Nat.mod_lt _ (by omega))]
+    rcases ho with rfl | rfl
+    · rw [ring_centred_d1 _ _ _ (by rw [hlen]; exact hi), hrv, hrv, hlen]
+      simp
+    · rw [ring_centred_d2 _ _ _ (by rw [hlen]; exact hi), hrv, hrv, hrv, hlen]
+      simp
+
+/-- mixed second difference: stencil along `a` of the stencil along `b` of component `c` -/
+def DD (f : Fld) (a b c : Nat) (i : List Nat) : Rat :=
+  lineD (periodic f a) 1 (f.mesh.cellAt a) (f.mesh.nAt a)
+    (fun k => lineD (periodic f b) 1 (f.mesh.cellAt b) (f.mesh.nAt b)
+      (fun l => (f.data.get (setAt (setAt i a k) b l)).getD c 0) (i.getD b 0)) (i.getD a 0)
+
+theorem DD_comm (f : Fld) (a b c : Nat) (i : List Nat) (hab : a ≠ b) : DD f a b c i = DD f b a c i := by
+  unfold DD
+  rw [lineD_comm]
+  apply lineD_congr
+  intro l
+  apply lineD_congr
+  intro k
+  rw [setAt_comm _ _ _ _ _ hab]
+
+/-- derivative along `a` of a fully valid field whose component `c'` is the derivative along
+`b ≠ a` of component `c` of the fully valid field `f` -/
+theorem D_of_D (f g : Fld) (a b c c' : Nat) (i : List Nat) (hf : FullyValid f) (hg : FullyValid g)
+    (hm : g.mesh = f.mesh) (hdata : ∀ i', (g.data.get i').getD c' 0 = D f b 1 c i') (hab : a ≠ b)
+    (hia : i.getD a 0 < f.mesh.nAt a) (hib : i.getD b 0 < f.mesh.nAt b) :
+    D g a 1 c' i = DD f a b c i := by
+  rw [D_all_valid g a 1 c' i (Or.inl rfl) (fun j _ => hg _) (by rw [hm]; exact hia)]
+  unfold DD periodic
+  rw [hm]
+  apply lineD_congr
+  intro k
+  unfold NDA.line
+  rw [hdata]
+  rw [D_all_valid f b 1 c _ (Or.inl rfl) (fun j _ => hf _) (by rw [getD_setAt_ne _ _ _ _ _ (Ne.symm hab)]; exact hib)]
+  rw [getD_setAt_ne _ _ _ _ _ (Ne.symm hab)]
+  rfl
 
 end DFV.C05
